@@ -1,69 +1,38 @@
-/* Contract for ConstPool::add (property C19, also C15): offsets are aligned to the constant's size, lie inside the pool, never move,
- * equal constants share one offset; invalid sizes are rejected without change; allocation failure yields kOutOfMemory, never a NULL
- * dereference. The red-black trees are abstracted by contracts on Tree::get/insert/new_node_t (assumed, see evidence); the arena by
- * "NULL or fresh". Gap lists bounded: at most one gap per size class on entry (quick), the gap pool holds at most one spare record. */
+/* Contract for ConstPool::add (property C19, also C15/C14): offsets are aligned to the constant's size, lie inside the pool, never
+ * move, equal constants share one offset; a new slot comes out of space that was free (a registered gap, or the tail of the pool) and
+ * everything that stays registered as free afterwards is well-formed and disjoint from it; invalid sizes are rejected without change;
+ * allocation failure yields kOutOfMemory, never a NULL dereference.
+ *
+ * Shape of the pre-state (built by harness/c19_add.c so that symbolic execution sees constant shapes): every size class holds 0, 1 or
+ * 2 registered gaps (offsets symbolic, pairwise disjoint, inside the pool), the record pool holds 0 or 1 spare record, pool size
+ * <= 2^30. One unit per constant size (VERIF_CONSTSIZE); sizes that are not a power of two <= 64 are one more unit (size symbolic).
+ * The red-black trees and the arena are abstracted by ASSUMED stubs (below). */
 #include "spec/specdefs.h"
 #include "spec/errors.h"
 #if defined(HAVE_STRUCT_ConstPool) && defined(HAVE_STRUCT_ConstPool_Gap) && defined(HAVE_STRUCT_ConstPool_Node)
-#ifndef VERIF_MAXCONST
-#define VERIF_MAXCONST 64     /* largest constant size explored (quick tier: 16, which still exercises the shared sub-constant loop) */
+#define NCLS 7
+#ifndef NPER
+#define NPER 2           /* registered gaps per size class on entry (quick tier: 1) */
 #endif
-struct ConstPool_Node* g_hit;            /* ghost: the node Tree::get may find (inserted earlier, so it satisfies the pool invariant) */
-struct ConstPool_Gap* g_gap[7];          /* ghost: the gap (if any) at the head of each size class on entry */
-uint64_t g_size0, g_align0, g_gapoff[7]; uint8_t g_hasgap[7];
-uint64_t g_req_size;                     /* ghost: the size of the current request (binds the tree contracts to the call) */
-#define VERIF_GHOST_INIT() (g_gapcnt = 0, g_nodecnt = 0, __CPROVER_havoc_object(&g_hit), __CPROVER_havoc_object(g_gap), __CPROVER_havoc_object(&g_size0), __CPROVER_havoc_object(&g_align0), \
-   __CPROVER_havoc_object(g_gapoff), __CPROVER_havoc_object(g_hasgap), __CPROVER_havoc_object(&g_req_size))
-
-/* ---- assumed contracts of the callees that are not lowered here -------------------------------------------------- */
-#define CONTRACT_ConstPool_Tree_get \
-  __CPROVER_requires(data != NULL) \
-  __CPROVER_assigns() \
-  /* pointer_in_range gives the returned pointer its object (CBMC resolves dereferences by value sets, not by equalities) */ \
-  __CPROVER_ensures(__CPROVER_return_value == NULL || (__CPROVER_pointer_in_range_dfcc(g_hit, __CPROVER_return_value, g_hit) && self->_data_size == g_req_size))
-#define CONTRACT_ConstPool_Tree_insert \
-  __CPROVER_requires(node != NULL)   /* the tree links the node in: inserting NULL dereferences it */ \
-  __CPROVER_assigns(self->_size, __CPROVER_object_whole(node)) \
-  __CPROVER_ensures(self->_size == __CPROVER_old(self->_size) + 1)
-/* allocators hand out distinct records of two ghost pools (one object each instead of one object per call: CBMC's object table is small) */
-#define GAPPOOL_N 24
-#define NODEPOOL_N 20
+#ifndef VERIF_NATIVE_REPLAY
 struct c_node_slot { struct ConstPool_Node n; uint8_t data[64]; };
-struct ConstPool_Gap g_gappool[GAPPOOL_N]; unsigned g_gapcnt;
-struct c_node_slot g_nodepool[NODEPOOL_N]; unsigned g_nodecnt;
-#define CONTRACT_ConstPool_Tree_new_node_t \
-  __CPROVER_requires(data != NULL && size >= 1 && size <= 64 && g_nodecnt < NODEPOOL_N) \
-  __CPROVER_assigns(g_nodecnt, g_nodepool[g_nodecnt]) \
-  __CPROVER_ensures(__CPROVER_return_value == NULL ? g_nodecnt == __CPROVER_old(g_nodecnt) : \
-     (g_nodecnt == __CPROVER_old(g_nodecnt) + 1 && __CPROVER_pointer_in_range_dfcc(&g_nodepool[0].n, __CPROVER_return_value, &g_nodepool[NODEPOOL_N - 1].n) && \
-      __CPROVER_return_value == &g_nodepool[__CPROVER_old(g_nodecnt)].n && \
-      __CPROVER_return_value->_offset == (uint32_t)offset && __CPROVER_return_value->_shared == shared))
-#define CONTRACT_Arena_alloc_oneshot_ConstPool_Gap_ \
-  __CPROVER_requires(g_gapcnt < GAPPOOL_N) \
-  __CPROVER_assigns(g_gapcnt) \
-  __CPROVER_ensures(__CPROVER_return_value == NULL ? g_gapcnt == __CPROVER_old(g_gapcnt) : \
-     (g_gapcnt == __CPROVER_old(g_gapcnt) + 1 && __CPROVER_pointer_in_range_dfcc(&g_gappool[0], __CPROVER_return_value, &g_gappool[GAPPOOL_N - 1]) && \
-      __CPROVER_return_value == &g_gappool[__CPROVER_old(g_gapcnt)]))
+/* harness objects */
+struct ConstPool g_pool; struct ConstPool_Gap g_G[NCLS][NPER]; struct ConstPool_Gap g_spare; uint8_t g_data[64]; uint64_t g_out; uint8_t g_arena_obj[128];
+struct c_node_slot g_hitobj;
+#endif
+/* ghost: the nondeterministic choices of the assumed callee models, fixed before the call so that a counterexample names them:
+ * allocation call j (nodes and gap records, in call order) fails iff bit j of g_fail_mask; lookup call j hits iff bit j of g_hit_mask */
+uint64_t g_fail_mask, g_hit_mask; uint32_t g_alloc_calls, g_get_calls;
+/* ghost snapshot of the entry state */
+uint8_t g_n[NCLS]; uint64_t g_goff[NCLS][NPER]; uint64_t g_size0, g_align0; struct ConstPool_Gap* g_head0[NCLS]; uint64_t g_req_size; uint8_t g_has_spare;
+#define VERIF_GHOST_INIT() ((void)0)
 
-/* ---- pool invariant (entry) --------------------------------------------------------------------------------------- */
-#define GAP_PRE(self, i) \
-  __CPROVER_requires(self->_gaps[i] == NULL || __CPROVER_is_fresh(self->_gaps[i], sizeof(struct ConstPool_Gap)))
-static inline _Bool c_pool_pre(const struct ConstPool* p) {
-  if (p->_size > ((uint64_t)1 << 30) || g_size0 != p->_size || g_align0 != p->_alignment) return 0;
-  for (unsigned i = 0; i < 7; i++) {
-    const struct ConstPool_Gap* g = p->_gaps[i];
-    if (g_gap[i] != g || g_hasgap[i] != (g != NULL)) return 0;
-    if (g) {   /* a gap of class i is 2^i bytes, aligned to its size, inside the pool; one gap per class in this harness */
-      if (g->_next != NULL || g->_size != ((uint64_t)1 << i) || (g->_offset & (g->_size - 1)) != 0 || g->_offset > p->_size || g->_size > p->_size - g->_offset) return 0;
-      if (g_gapoff[i] != g->_offset) return 0;
-    }
-    if (p->_tree[i]._data_size != ((uint64_t)1 << i)) return 0;
-  }
-  return 1;
-}
-static inline _Bool c_hit_ok(const struct ConstPool* p, uint64_t size) {   /* a node found by get() was placed by an earlier add() of this size */
-  return ((uint64_t)g_hit->_offset & (size - 1)) == 0 && g_hit->_offset <= p->_size && size <= p->_size - g_hit->_offset;
-}
+/* ---- ASSUMED models of the callees that are not lowered here (defined in harness/c19_add.c as small C stubs rather than as
+ *      replaced contracts: dfcc instantiates a write set per replaced call, which exhausted CBMC's object table) ------------
+ *   Tree::get          NULL, or the node g_hitobj (placed by an earlier add of this size)
+ *   Tree::insert       requires node != NULL (the tree links the node in); counts the node
+ *   Tree::new_node_t   NULL, or a fresh node record carrying (offset, shared)
+ *   Arena::alloc_oneshot<Gap>   NULL, or a fresh gap record                                                                */
 static inline _Bool c_size_valid(uint64_t size) { return size >= 1 && size <= 64 && (size & (size - 1)) == 0; }
 static inline unsigned c_log2(uint64_t size) { unsigned i = 0; for (unsigned k = 0; k < 7; k++) if (((uint64_t)1 << k) == size) i = k; return i; }
 
@@ -71,7 +40,7 @@ static inline int c_add_post(const struct ConstPool* p, uint64_t size, uint64_t 
   if (!c_size_valid(size)) {                                   /* P1 invalid size: rejected, nothing changes */
     if (ret != E_INVALID_ARGUMENT) return 1;
     if (p->_size != g_size0 || p->_alignment != g_align0) return 2;
-    for (unsigned i = 0; i < 7; i++) if (p->_gaps[i] != g_gap[i]) return 2;
+    for (unsigned i = 0; i < NCLS; i++) if (p->_gaps[i] != g_head0[i]) return 2;
     return 0;
   }
   if (ret != E_OK && ret != E_OOM) return 3;
@@ -80,17 +49,20 @@ static inline int c_add_post(const struct ConstPool* p, uint64_t size, uint64_t 
     if ((off & (size - 1)) != 0) return 5;                     /* P3 aligned to the constant's size */
     if (off > p->_size || size > p->_size - off) return 6;     /* P4 inside the pool */
     if (p->_alignment < size || p->_alignment < g_align0) return 7;   /* P5 pool alignment covers every constant added */
-    /* P6 a new slot is either a gap that was free or lies beyond everything handed out before; a dedup hit returns the old offset */
+    /* P6 a new slot is either inside a gap that was registered as free or lies beyond everything handed out before; a dedup hit returns the old offset */
     unsigned cls = c_log2(size);
-    _Bool from_gap = 0;                                       /* inside some gap that was free on entry (its own class or a larger one) */
-    for (unsigned i = 0; i < 7; i++) if (i >= cls && g_hasgap[i] && off >= g_gapoff[i] && off - g_gapoff[i] <= ((uint64_t)1 << i) - size) from_gap = 1;
-    _Bool hit = off == g_hit->_offset && p->_size == g_size0;
+    _Bool from_gap = 0;
+    for (unsigned i = 0; i < NCLS; i++) for (unsigned k = 0; k < NPER; k++)
+      if (i >= cls && k < g_n[i] && off >= g_goff[i][k] && off - g_goff[i][k] <= ((uint64_t)1 << i) - size) from_gap = 1;
+    _Bool hit = off == g_hitobj.n._offset && p->_size == g_size0;
     if (!(from_gap || off >= g_size0 || hit)) return 8;
+    if (from_gap && !hit && p->_size != g_size0) return 11;    /* reusing a gap does not grow the pool */
     /* P7 what remains registered as free space is well-formed and does not overlap the slot just handed out */
-    if (!hit) for (unsigned i = 0; i < 7; i++) {
+    if (!hit) for (unsigned i = 0; i < NCLS; i++) {
       const struct ConstPool_Gap* g = p->_gaps[i];
-      for (unsigned k = 0; k < 4; k++) {
+      for (unsigned k = 0; k <= NPER + 3; k++) {
         if (g == NULL) break;
+        if (k == NPER + 3) return 12;                           /* longer than anything one add() can build from <= NPER gaps: not expected */
         if (g->_size != ((uint64_t)1 << i) || (g->_offset & (g->_size - 1)) != 0 || g->_offset > p->_size || g->_size > p->_size - g->_offset) return 9;
         if (!(g->_offset + g->_size <= off || off + size <= g->_offset)) return 10;
         g = g->_next;
@@ -99,25 +71,18 @@ static inline int c_add_post(const struct ConstPool* p, uint64_t size, uint64_t 
   }
   return 0;
 }
+/* This unit runs without goto-instrument's contract instrumentation (Unit(dfcc=False)): harness/c19_add.c establishes the
+ * precondition and asserts c_add_post itself. Reason: the allocator models create many heap objects and dfcc's write-set loops need
+ * an unwinding bound per object; the same obligations without the frame check cost the same solver time. The frame (only the pool,
+ * its gap records and *offset_out are written) is therefore NOT checked for ConstPool::add. */
+#ifdef VERIF_NO_DFCC
+#define CONTRACT_ConstPool_add
+#else
 #define CONTRACT_ConstPool_add \
-  __CPROVER_requires(__CPROVER_is_fresh(self, sizeof(*self))) \
-  __CPROVER_requires(__CPROVER_is_fresh(self->_arena, 128))   /* opaque here: only passed to the allocator contracts */ \
-  __CPROVER_requires(__CPROVER_is_fresh(data, 64)) \
-  __CPROVER_requires(__CPROVER_is_fresh(offset_out._val, sizeof(uint64_t))) \
-  __CPROVER_requires(__CPROVER_is_fresh(g_hit, sizeof(struct ConstPool_Node) + 64)) \
-  GAP_PRE(self, 0) GAP_PRE(self, 1) GAP_PRE(self, 2) GAP_PRE(self, 3) GAP_PRE(self, 4) GAP_PRE(self, 5) GAP_PRE(self, 6) \
-  __CPROVER_requires(self->_gap_pool == NULL || __CPROVER_is_fresh(self->_gap_pool, sizeof(struct ConstPool_Gap))) \
-  __CPROVER_requires(self->_gap_pool == NULL || self->_gap_pool->_next == NULL) \
-  __CPROVER_requires(g_gapcnt == 0 && g_nodecnt == 0) \
-  __CPROVER_requires(c_pool_pre(self) && g_req_size == size && (!c_size_valid(size) || c_hit_ok(self, size))) \
-  __CPROVER_requires(size <= VERIF_MAXCONST || size > 64) \
-  __CPROVER_assigns(*self, *offset_out._val, g_gapcnt, g_nodecnt, __CPROVER_object_whole(g_gappool), __CPROVER_object_whole(g_nodepool)) \
-  __CPROVER_assigns(self->_gaps[0] != NULL: __CPROVER_object_whole(self->_gaps[0])) __CPROVER_assigns(self->_gaps[1] != NULL: __CPROVER_object_whole(self->_gaps[1])) \
-  __CPROVER_assigns(self->_gaps[2] != NULL: __CPROVER_object_whole(self->_gaps[2])) __CPROVER_assigns(self->_gaps[3] != NULL: __CPROVER_object_whole(self->_gaps[3])) \
-  __CPROVER_assigns(self->_gaps[4] != NULL: __CPROVER_object_whole(self->_gaps[4])) __CPROVER_assigns(self->_gaps[5] != NULL: __CPROVER_object_whole(self->_gaps[5])) \
-  __CPROVER_assigns(self->_gaps[6] != NULL: __CPROVER_object_whole(self->_gaps[6])) \
-  __CPROVER_assigns(self->_gap_pool != NULL: __CPROVER_object_whole(self->_gap_pool)) \
+  __CPROVER_requires(self == &g_pool && data == (void*)g_data && offset_out._val == &g_out && g_req_size == size) \
+  __CPROVER_assigns(*self, *offset_out._val, __CPROVER_object_whole(g_G), g_spare) \
   __CPROVER_ensures(c_add_post(self, size, *offset_out._val, __CPROVER_return_value) == 0)
+#endif
 #endif
 
 #ifdef HAVE_STRUCT_ConstPool
